@@ -49,7 +49,7 @@ Definition mfits (f : mb) (us : side) (m : move) (rk rq : N) : Prop :=
   from < 64 /\ to < 64 /\
   match m_type m with
   | Normal => f from = Some (us, pc) /\ f to = None /\ from <> to
-  | Double => pc = Pawn /\ f from = Some (us, pc) /\ f to = None /\ from <> to
+  | Double => pc = Pawn /\ f from = Some (us, pc) /\ f to = None /\ from <> to /\ (us = White -> 8 <= to)
   | Capture => f from = Some (us, pc) /\ f to = Some (them, cap) /\ from <> to
   | Enpassant => pc = Pawn /\ cap = Pawn /\ f from = Some (us, Pawn) /\ f to = None /\ victim_sq us to < 64 /\
                  f (victim_sq us to) = Some (them, Pawn) /\ from <> to /\ victim_sq us to <> to /\ victim_sq us to <> from
@@ -103,7 +103,7 @@ Proof.
     eapply rep_ext.
     + apply toggle_add; [apply toggle_remove; [apply toggle_remove; [exact Hrep|exact Hfrom|exact E1]|exact Hto|rewrite upd_other by congruence; exact E2]|exact Hto|exact (Hnp _ _ _ Hfrom E1)|apply upd_same].
     + intros q Hq. unfold upd. destruct (q =? m_to m); reflexivity.
-  - (* Double *) destruct Hfit as (Ep & E1 & E2 & Hne).
+  - (* Double *) destruct Hfit as (Ep & E1 & E2 & Hne & _).
     apply toggle_add; [apply toggle_remove; assumption|exact Hto|exact (Hnp _ _ _ Hfrom E1)|rewrite upd_other by congruence; exact E2].
   - (* Enpassant *) destruct Hfit as (Ep & Ec & E1 & E2 & Hv & E3 & N1 & N2 & N3). rewrite Ep.
     apply toggle_add; [apply toggle_remove; [apply toggle_remove; [exact Hrep|exact Hfrom|exact E1]|exact Hv|rewrite upd_other by congruence; exact E3]|exact Hto|discriminate|].
